@@ -96,7 +96,7 @@ def gen_prior(rng):
 
 
 def file_bytes(f):
-    return ct.enc_v2([(t[0], t[1], bytes.fromhex(t[2])) for t in f['threads']], f['pad'],
+    return ct.enc_v2([(t[0], t[1], bytes.fromhex(t[2])) + ((bytes.fromhex(t[3]),) if len(t) > 3 else ()) for t in f['threads']], f['pad'],
                      [bytes.fromhex(r) for r in f['recs']], f['is64'], f['tick'])
 
 
@@ -118,7 +118,7 @@ def expected_events(f):
 
 def expected_tables(f):
     tp, pn = {}, {}
-    for tid, pid, nh in f['threads']:
+    for tid, pid, nh in (t[:3] for t in f["threads"]):
         tp[tid] = pid
         pn[pid] = bytes.fromhex(nh).decode('utf-8')
     return ct.show_tables(tp, pn)
@@ -332,6 +332,17 @@ def correspondence(rep, rng, tier):
                 kind_fn=lambda c, got: got.split(' ', 1)[0],
                 rule='finding stream K1 only: first record begins with a zero byte; model and code must still agree '
                      '(the model reproduces the defect), the oracle reports signature ' + K1_SIG)
+    junk = []
+    for _ in range(150 if quick else 4000):
+        f = gen_file(rng, small=rng.random() < 0.5)
+        if f['threads']:
+            f['threads'] = ct.add_junk(rng, f['threads'])
+            junk.append(mk_case(f, gen_prior(rng)))
+    run_section(rep, 'v2-junk', junk, line_v2, impl_v2, oracle_fn=lambda c, got: oracle_file(c['file'], got, False),
+                nontrivial_fn=lambda c, got: any(len(t) > 3 for t in c['file']['threads']),
+                rule='generated V2Files whose 20-byte command fields hold bytes BEHIND the name\'s terminator (reused kernel '
+                     'slots: random bytes, text, further NULs, 0xff): the name is the C string, the rest is not part of it; same '
+                     'comparison and oracle as section v2')
     mal = malformed(rng, 600 if quick else 10000)
     run_section(rep, 'v2-malformed', mal, line_v2, impl_v2,
                 kind_fn=lambda c, got: 'k%d-%s' % (c['kind'], got.split(' ', 1)[0]),
@@ -366,6 +377,7 @@ def replay(path):
         from .. import pipeline as _PL
         return _PL.replay_e2e(case, 'C02', path)
     fns = {'v2': (line_v2, impl_v2, lambda c, g: oracle_file(c['file'], g, False)),
+           'v2-junk': (line_v2, impl_v2, lambda c, g: oracle_file(c['file'], g, False)),
            'v2-k1': (line_v2, impl_v2, lambda c, g: oracle_file(c['file'], g, True)),
            'v2-malformed': (line_v2, impl_v2, None), 'v2-seq': (line_seq, impl_seq, oracle_seq),
            'v2-kevents': (line_kev, impl_kev, oracle_kev)}
